@@ -104,6 +104,27 @@ SmallWFViol(f, MAXI) ==
     ELSE IF ~(0 <= f.n * f.pl - SumInts(f.lens, 1) /\ f.n * f.pl - SumInts(f.lens, 1) < f.pl) THEN "C06.wellformed.sum"
     ELSE ""
 
+\* ---------------------------------------------------------------- design model of the parser's layout rule
+(* A raw info dictionary d = [pl, n (hashes in the pieces string), len, files] may carry BOTH the single-file key         *)
+(* "length" and a "files" list (HYBRID dictionary; an absent "length" is len = 0, an absent "files" is <<>>).  The parser  *)
+(* has to settle on ONE layout and judge the piece count against the lengths of THAT layout (info.go NewInfo: a non-empty *)
+(* "files" wins, "length" is ignored).  rule = "add" is the defective variant that counts both: its accepted description  *)
+(* has a piece count that its file list does not add up to - piece construction then runs past the last file.             *)
+(* MC_Metainfo: ParserSound("files-win") holds over all small raw dictionaries, ParserSound("add") does not.              *)
+CodeLength(d, rule) == IF Len(d.files) > 0 THEN SumInts(d.files, 1) + (IF rule = "add" THEN d.len ELSE 0) ELSE d.len
+CodeFiles(d) == IF Len(d.files) > 0 THEN d.files ELSE <<d.len>>
+CodeAccepts(d, rule, MAXI) ==
+    /\ d.pl > 0 /\ d.n > 0
+    /\ \A i \in 1 .. Len(d.files) : d.files[i] >= 0
+    /\ CodeLength(d, rule) <= MAXI
+    /\ LET delta == d.n * d.pl - CodeLength(d, rule) IN delta >= 0 /\ delta < d.pl
+ParserSound(Raw, rule, MAXI) ==
+    \A d \in Raw : CodeAccepts(d, rule, MAXI) => SmallWFViol([pl |-> d.pl, n |-> d.n, lens |-> CodeFiles(d)], MAXI) = ""
+\* every entry path of a session (file, URL body, resume record, info dictionary from a peer for a magnet link) applies
+\* the parser's rule AND the limits: the verdict does not depend on the path (Trace_Metainfo judges the lines of the sites
+\* add/addl, url, res and mag with the same WFViol, lim = 1).
+SessionAccepts(path, d, rule, MAXI, maxn) == CodeAccepts(d, rule, MAXI) /\ d.n <= maxn
+
 Abs(k) == IF k < 0 THEN 0 - k ELSE k
 Enc(b, f) == [pl |-> ToLimbs(b, f.pl), n |-> ToLimbs(b, f.n),
               lens |-> [i \in 1 .. Len(f.lens) |-> [neg |-> IF f.lens[i] < 0 THEN 1 ELSE 0, m |-> ToLimbs(b, Abs(f.lens[i]))]],
